@@ -6,7 +6,9 @@ up to three levels deep, diamond shapes, root types and enums as models or as ba
 private pass is run on the real objects and the members of every model afterwards — (name, wire name, typed?,
 required?) — are compared with the Lean model.  A placeholder that the real pass leaves in a class model but the model
 drops (or the other way round) is a disagreement; the failing-input search then looks for a document
-(`c01_allof` family) on which C01's own oracle fails."""
+(`c01_allof` family) on which C01's own oracle fails.  The empty string is one of the wire names (`NAMES`): since the
+repair of C01-required-empty-name the pass treats it like every other name (guard `original_name is None`); a pass that
+keeps the placeholder of `required: [""]` again disagrees here and fails the corpus cases of c01.py."""
 from __future__ import annotations
 
 import time
@@ -138,7 +140,7 @@ def campaign_placeholders(ck: Check, n: int) -> None:
             model = dec_fields(rep)
             camp.hit(f"kind:{nd.kind}")
             camp.hit("bases:" + str(len(nd.bases)))
-            pend = [f for f in nd.fields if f[0] is None and f[1] and not f[2]]
+            pend = [f for f in nd.fields if f[0] is None and f[1] is not None and not f[2]]  # the guard is `original_name is None`: "" is a name
             if pend:
                 camp.hit("has-pending-placeholder")
                 camp.distinct.add(req)
